@@ -298,6 +298,8 @@ let scope_ops (scope : string) : string list * string list =
         add "aalloc %d 3 4 ! 0" a; add "aalloc %d 3 4 ! 1" a;
         add "aalloc %d 4611686018427387905 4" a;          (* 2^62+1 elements of 4 bytes *)
         add "aalloc %d %s 1" a smax; add "aalloc %d 4611686018427387897 4" a;
+        add "aalloc %d 18446744073709551607 1" a;           (* SIZE_MAX-8: the product fits, product + header does not *)
+        add "aalloc %d 2305843009213693950 8" a;            (* (SIZE_MAX-15)/8 elements of 8 bytes *)
         add "aalloc %d 7 0" a;
         L.iter (fun e -> add "aset %d %d 5 4" a e) (rng 0 2);
         add "aset %d 0 10 4" a; add "aset %d 0 5 4 ! 0" a; add "aset %d 1 0 4" a;
